@@ -7,12 +7,16 @@ from pyvc.logic import (conj, disj, neg, implies, iff, ite, eq, ne, lt, le, gt, 
 from pyvc.engine import SList, INT, REAL, FEAT, fresh, Unsupported, sort_of
 
 AI = z3.ArraySort(INT, INT)
-PERM = z3.Function("PERM", INT, INT, AI)        # PERM(seed, n): the permutation np.random.permutation(n) returns right after
-PERMINV = z3.Function("PERMINV", INT, INT, AI)  # np.random.seed(seed); a function of (seed, n) only
+# numpy's global generator is modelled as an abstract state (an integer token) that lives in the symbolic state, so it
+# is path-sensitive: on entry it is unknown, np.random.seed(s) sets it to RNG_AFTER_SEED(s), every draw moves it on.
+RNG_AFTER_SEED = z3.Function("RNG_AFTER_SEED", INT, INT)
+RNG_NEXT = z3.Function("RNG_NEXT", INT, INT)
+PERM = z3.Function("PERM", INT, INT, AI)        # PERM(state, n): the permutation np.random.permutation(n) returns in that state
+PERMINV = z3.Function("PERMINV", INT, INT, AI)
 
 
-def perm_axioms(seed, n):
-    p, q = PERM(seed, n), PERMINV(seed, n)
+def perm_axioms(state, n):
+    p, q = PERM(state, n), PERMINV(state, n)
     t = z3.Int("perm_t")
     return z3.ForAll([t], z3.Implies(z3.And(t >= 0, t < n), z3.And(
         z3.Select(p, t) >= 0, z3.Select(p, t) < n, z3.Select(q, z3.Select(p, t)) == t,
@@ -20,22 +24,29 @@ def perm_axioms(seed, n):
         patterns=[z3.Select(p, t), z3.Select(q, t)])
 
 
+def _no_loops(ex, what):
+    if getattr(ex, "_loop_depth", 0):
+        raise Unsupported("%s inside a loop (the generator state is not part of the loop's modified set)" % what)
+
+
 @external("numpy.random.seed")
 def np_seed(ex, st, args, kwargs, node):
-    ex.rng_seed = lift(args[0], INT)
+    """ASSUMED: after np.random.seed(s) the generator state is a function of s only"""
+    _no_loops(ex, "np.random.seed")
+    st.locals["$rng"] = RNG_AFTER_SEED(lift(args[0], INT))
     return None
 
 
 @external("numpy.random.permutation")
 def np_permutation(ex, st, args, kwargs, node):
-    """ASSUMED: right after np.random.seed(s), permutation(n) is a bijection of 0..n-1 determined by (s, n)"""
-    if getattr(ex, "rng_seed", None) is None:
-        raise Unsupported("permutation without a preceding np.random.seed in the same function")
+    """ASSUMED: permutation(n) is a bijection of 0..n-1 determined by (generator state, n); the state moves on"""
+    _no_loops(ex, "np.random.permutation")
+    state = fresh("rng.state", INT)          # a name for the current state (it may be a conditional term after a join)
+    st.assume(state == st.locals["$rng"])
     n = lift(args[0], INT)
-    st.assume(perm_axioms(ex.rng_seed, n))
-    seed = ex.rng_seed
-    ex.rng_seed = None          # the generator state has moved on: a second draw is a different permutation
-    return SList(PERM(seed, n), n, "int")
+    st.assume(perm_axioms(state, n))
+    st.locals["$rng"] = RNG_NEXT(state)
+    return SList(PERM(state, n), n, "int")
 
 
 @external("numpy.vstack")
@@ -73,7 +84,7 @@ def split_requires(v):
 def split_post(v, X_1, X_2, Y_1, Y_2, I_1=None, I_2=None):
     n = lift(length(v.X), INT)
     h = halt_of(v)
-    seed = lift(v.random_state, INT)
+    seed = RNG_AFTER_SEED(lift(v.random_state, INT))     # the state right after seeding with random_state
     p = SList(PERM(seed, n), n, "int")
     out = [
         ("sizes", conj(eq(length(X_1), h), eq(length(Y_1), h), eq(length(X_2), n - h), eq(length(Y_2), n - h),
